@@ -30,6 +30,20 @@ fn texts(rng: &mut Rng) -> Vec<Text> {
     // pairs whose (query || n || types) concatenations coincide
     v.push(Text { id: "H1".into(), sql: "SELECT $1 /*v q=H1 rows=1 */ AS c1".into(), types: vec![700] });
     v.push(Text { id: "H2".into(), sql: "SELECT $1 /*v q=H1 rows=1 */ AS c".into(), types: vec![1700] });
+    // one text, parameter type lists that are rearrangements / truncations of each other
+    // (unspecified = 0 in different positions, shorter lists): all different statements
+    let fam: Vec<Vec<i32>> = vec![vec![0, 0, 25], vec![25, 0, 0], vec![0, 25, 0], vec![25], vec![25, 25], vec![0, 0, 0], vec![], vec![23, 25, 0], vec![25, 23, 0], vec![0, 23, 25]];
+    let k = rng.range(3, 6) as usize;
+    let mut picked: Vec<usize> = vec![];
+    while picked.len() < k {
+        let i = rng.below(fam.len() as u64) as usize;
+        if !picked.contains(&i) {
+            picked.push(i);
+        }
+    }
+    for i in picked {
+        v.push(Text { id: format!("Z{}", i), sql: "SELECT $1, $2, $3 /*v q=Z rows=1 */".into(), types: fam[i].clone() });
+    }
     v.push(Text { id: "H3".into(), sql: "SELECT 1 /*v q=H3 rows=1 */ AS x1".into(), types: vec![] });
     v.push(Text { id: "H4".into(), sql: "SELECT 1 /*v q=H3 rows=1 */ AS x".into(), types: vec![10] });
     v
